@@ -31,9 +31,13 @@ Fault(e) ==
 
 \* the statement as the default options print it (format = true) consists of the same tokens - kinds, words, numbers and
 \* the code points of every string token - as the compact statement, under the tokenizer of its dialect
+\* Literal.tla says which literals that printer can keep (PrinterKeeps: its lexer takes a backslash as an escape whatever the
+\* dialect); a statement changed although the specification says the literal is kept is "format", one changed where the
+\* specification predicts it is "printer" (finding F124, decided by the specification and not by a pattern on the text)
 FmtFault(e) ==
   IF \E i \in 1 .. Len(e.dialects) : ~e.dialects[i].fmt_same
-    THEN "format:" \o (e.dialects[CHOOSE i \in 1 .. Len(e.dialects) : ~e.dialects[i].fmt_same]).d
+    THEN (IF PrinterKeeps(Expected(e.lit)) THEN "format:" ELSE "printer:")
+         \o (e.dialects[CHOOSE i \in 1 .. Len(e.dialects) : ~e.dialects[i].fmt_same]).d
   ELSE "ok"
 
 Lit ==
